@@ -91,7 +91,19 @@ impl SimpleSerializer for UnionBuilder {
         let mut ctx = BTreeMap::new();
         self.annotate(&mut ctx);
 
-        try_(|| self.serialize_variant(0)?.serialize_default()).ctx(&ctx)
+        // use the first variant that can hold a value: variants never seen during tracing are
+        // represented by placeholders that refuse every call
+        let variant_index = self
+            .fields
+            .iter()
+            .position(|(builder, _)| !matches!(builder, ArrayBuilder::UnknownVariant(_)))
+            .unwrap_or(0);
+
+        try_(|| {
+            self.serialize_variant(u32::try_from(variant_index)?)?
+                .serialize_default()
+        })
+        .ctx(&ctx)
     }
 
     fn serialize_unit_variant(
